@@ -58,13 +58,20 @@ type mesherCase struct {
 	Procs  []int         `json:"procs"`
 }
 
-var mesherAPIs = []string{"mc", "mc", "filter", "search", "c2f", "dc", "dc", "dcrepair", "ms", "mssearch", "msc2f"}
+// dcrepair (DualContouring with Repair) is run for the race detector only: its result is not reproducible even
+// single-threaded (the repair pass visits singular edges / vertices in Go map order; registered once as finding
+// C12-dc-repair-order, whose clause C12/dc/configurations makes the identical GOMAXPROCS x MaxGos x BufferSize
+// comparison and resumes it by itself once the library is fixed), so "the answer of sequential use" does not exist
+// to compare with.  dcclip keeps the exact comparison for the Clip option that used to ride along with Repair.
+var mesherAPIs = []string{"mc", "mc", "filter", "search", "c2f", "dc", "dc", "dcclip", "dcrepair", "ms", "mssearch", "msc2f"}
+
+func isDC(api string) bool { return api == "dc" || api == "dcclip" || api == "dcrepair" }
 
 func genMesherCase(t *rapid.T) mesherCase {
 	c := mesherCase{API: pick(t, mesherAPIs, "api"), Procs: genProcList(t)}
 	c.Iters = gen.Int(t, 0, 4, "iters")
 	twoD := c.API == "ms" || c.API == "mssearch" || c.API == "msc2f"
-	lattice := gen.Int(t, 0, 1, "lattice") == 0 && c.API != "c2f" && c.API != "msc2f" && c.API != "dc" && c.API != "dcrepair"
+	lattice := gen.Int(t, 0, 1, "lattice") == 0 && c.API != "c2f" && c.API != "msc2f" && !isDC(c.API)
 	switch {
 	case lattice && twoD:
 		l := gen.Lattice2Gen(t, 9, "lat2")
@@ -85,7 +92,7 @@ func genMesherCase(t *rapid.T) mesherCase {
 			}
 		}
 	}
-	if c.API == "dc" || c.API == "dcrepair" {
+	if isDC(c.API) {
 		c.Delta = gen.F(t, 0.15, 0.3, "dcdelta")
 		c.MaxGos = []int{0, 0, 1, 2, 7}[gen.Int(t, 0, 4, "maxgos")]
 		c.Buf = []int{0, 0, 500, 5000}[gen.Int(t, 0, 3, "buf")]
@@ -150,9 +157,9 @@ func checkMesher(c mesherCase, o *kit.Obs) error {
 			return canonTris(model3d.MarchingCubesSearch(s, c.Delta, c.Iters))
 		case "c2f":
 			return canonTris(model3d.MarchingCubesC2F(s, c.Big, c.Delta, 0, c.Iters))
-		case "dc", "dcrepair":
+		case "dc", "dcclip", "dcrepair":
 			dc := &model3d.DualContouring{S: model3d.SolidSurfaceEstimator{Solid: s}, Delta: c.Delta, MaxGos: c.MaxGos, BufferSize: c.Buf,
-				Repair: c.API == "dcrepair", Clip: c.API == "dcrepair"}
+				Repair: c.API == "dcrepair", Clip: c.API != "dc"}
 			return canonTris(dc.Mesh())
 		}
 		panic("c13: unknown mesher " + c.API)
@@ -186,6 +193,15 @@ func checkMesher(c mesherCase, o *kit.Obs) error {
 			ref3, ref2 = got3, got2
 			if len(ref3)+len(ref2) > 0 && maxInt(c.Procs) > 1 {
 				o.NonTrivial()
+			}
+			continue
+		}
+		if c.API == "dcrepair" {
+			// race detector only (see mesherAPIs); the output must still be a mesh of finite faces
+			for k, t := range got3 {
+				if !t[0].Finite() || !t[1].Finite() || !t[2].Finite() {
+					return fmt.Errorf("dcrepair at GOMAXPROCS=%d: face %d of the sorted face list is %v", p, k, t)
+				}
 			}
 			continue
 		}
